@@ -35,7 +35,7 @@ class ObjectDomain(EffectDomain):
     enter_returns_self = True
     closure_cells = True   # closures share their free variables with the defining frame through cells that outlive it
     heap = True            # a list / dict that gets a second owner becomes a heap object: both owners see every change
-    IDENTITY_TAGS = EffectDomain.IDENTITY_TAGS + ("inst", "classref", "ctorref", "excclass", "func", "method", "boundmethod", "userfn", "pytype")
+    IDENTITY_TAGS = EffectDomain.IDENTITY_TAGS + ("inst", "classref", "ctorref", "excclass", "func", "method", "boundmethod", "userfn", "pytype", "seqiter", "itercount")
 
     # -- values ---------------------------------------------------------------------------------
     def truth(self, value):
@@ -89,6 +89,16 @@ class ObjectDomain(EffectDomain):
     def _decorators(f):
         return {(dotted(x) or "").split(".")[-1] for x in getattr(f, "decorator_list", [])}
 
+    def _property_getter(self, ci, name):
+        """The getter when the class declares ``name = property(getter, ...)`` in its body (along the MRO), else None."""
+        got = self._class_attr_expr(ci, name)
+        if got is None:
+            return None
+        expr = got[1]
+        if isinstance(expr, ast.Call) and dotted(expr.func) == "property" and expr.args and isinstance(expr.args[0], ast.Name):
+            return self._method(got[0], expr.args[0].id)
+        return None
+
     def _class_attr_expr(self, ci, name):
         """The expression a class body (along the MRO) assigns to ``name``, when it is assigned exactly once there."""
         for c in self.classes.mro(ci):
@@ -133,6 +143,9 @@ class ObjectDomain(EffectDomain):
         key = f"inst.{n}.{attr}"
         if st.has(key):
             return [val(st.get(key), st)]
+        getter = self._property_getter(ci, attr)
+        if getter is not None and interp is not None:
+            return interp.inline(getter, {}, st, fr, receiver=ci, self_value=inst)   # name = property(getter, ...): the getter runs
         f = self._method(ci, attr)
         if f is not None:
             decos = self._decorators(f)
@@ -141,6 +154,9 @@ class ObjectDomain(EffectDomain):
             if "staticmethod" in decos:
                 return [val(("func", f), st)]
             return [val(("boundmethod", inst, attr), st)]
+        getter = self._property_getter(ci, attr)
+        if getter is not None and interp is not None:
+            return interp.inline(getter, {}, st, fr, receiver=ci, self_value=inst)   # name = property(getter, ...): the getter runs
         got = self._class_attr_expr(ci, attr)
         if got is not None and interp is not None:
             return self._eval_class_expr(interp, got[0], got[1], st, fr)
@@ -239,6 +255,8 @@ class ObjectDomain(EffectDomain):
             return [val(("kwdict", tuple((k, unbox_deep(v, st)) for k, v in items)), st)]
         if attr == "__class__" and is_inst(value):
             return [val(("classref", value[2]), st)]
+        if isinstance(value, tuple) and value[:1] == ("exc",) and attr == "args" and len(value) >= 2:
+            return [val(("tuple", ("sym", "message of " + " ".join(str(x) for x in value[1:]))), st)]   # what the exception was raised with: one symbolic message
         if isinstance(value, tuple) and value[:1] == ("super",) and len(value) == 3:
             return [val(("supermethod", value[1], attr, value[2]), st)]
         if isinstance(value, tuple) and value[:1] == ("tuple",):
@@ -273,11 +291,17 @@ class ObjectDomain(EffectDomain):
             return [val(self.attrs[key], st)]
         root = getattr(self, "root_class", None)
         if root is not None:
+            getter = self._property_getter(root, attr)
+            if getter is not None:
+                return interp.inline(getter, {}, st, fr, receiver=root)
             f = self._method(root, attr)
             if f is not None:
                 if self._decorators(f) & {"property", "cached_property"}:
                     return interp.inline(f, {}, st, fr, receiver=root)
                 return [val(("method", attr), st)]
+            getter = self._property_getter(root, attr)
+            if getter is not None:
+                return interp.inline(getter, {}, st, fr, receiver=root)
             got = self._class_attr_expr(root, attr)
             if got is not None:
                 return self._eval_class_expr(interp, got[0], got[1], st, fr)
@@ -336,6 +360,9 @@ class ObjectDomain(EffectDomain):
             if self._decorators(meth) & {"property", "cached_property"} and interp is not None:
                 return interp.inline(meth, {}, st, fr, receiver=fr.receiver)   # self.<property>: its getter runs
             return None
+        getter = self._property_getter(fr.receiver, chain[1])
+        if getter is not None and interp is not None:
+            return interp.inline(getter, {}, st, fr, receiver=fr.receiver)
         got = self._class_attr_expr(fr.receiver, chain[1])
         if got is not None:
             return self._eval_class_expr(interp, got[0], got[1], st, fr)
@@ -1026,14 +1053,19 @@ class ObjectDomain(EffectDomain):
         # getattr(<instance>, "name", default) / hasattr(<instance>, "name"): decided by the instance's class and state
         if d in ("getattr", "hasattr") and not call.keywords and len(call.args) == (3 if d == "getattr" else 2):
             got = interp.eval_list(list(call.args), st, fr)
-            if got and all(r.kind == "exc" or (is_inst(r.value[0]) and isinstance(r.value[1], tuple) and r.value[1][:1] == ("const",) and isinstance(r.value[1][1], str)) for r in got):
+            if got and all(r.kind == "exc" or ((is_inst(r.value[0]) or r.value[0] == ("self",)) and isinstance(r.value[1], tuple) and r.value[1][:1] == ("const",) and isinstance(r.value[1][1], str)) for r in got):
                 out = []
                 for r in got:
                     if r.kind == "exc":
                         out.append(r)
                         continue
                     inst, name = r.value[0], r.value[1][1]
-                    found = self._inst_attr(interp, inst, name, r.state, fr)
+                    if inst == ("self",):
+                        root = getattr(self, "root_class", None)
+                        known = r.state.has("self." + name) or ("self." + name) in self.attrs or (root is not None and (self._method(root, name) is not None or self._class_attr_expr(root, name) is not None))
+                        found = self._root_value_attr(interp, name, r.state, fr) if known else None
+                    else:
+                        found = self._inst_attr(interp, inst, name, r.state, fr)
                     if d == "hasattr":
                         out.append(val(TRUE if found is not None else FALSE, r.state))
                     elif found is None:
@@ -1192,38 +1224,54 @@ class ObjectDomain(EffectDomain):
                 else:
                     out.append(val(TOP, r.state))
             return out
+        if d == "object" and not call.args and not call.keywords and not st.has(fr.local("object")):
+            n = st.get("ev.inst", 0)
+            return [val(("sym", f"<object #{n}>"), st.set("ev.inst", n + 1))]   # a fresh object: equal and identical to itself only
         if d == "super" and not call.args and not call.keywords and getattr(fr.func, "_class", None) is not None and hasattr(fr.func, "_module"):
             owner = self.classes.get(fr.func._module.name, fr.func._class.name)
             if owner is not None:
                 return [val(("super", owner, fr.instance), st)]   # super() as a value: attribute lookups continue after the current class
         if d == "iter" and len(call.args) == 1 and not call.keywords:
-            # iter(<exact sequence>): an iterator object with its own position (a heap object: next() advances it for every holder)
+            # iter(<exact sequence>): an iterator object with its own position; next() advances it for every holder
             got = interp._forced(interp.eval(call.args[0], st, fr), fr)
-            if got and all(r.kind == "exc" or interp._exact_elements(r.value) is not None for r in got):
+            if got and all(r.kind == "exc" or interp._exact_elements(r.value) is not None or (isinstance(r.value, tuple) and r.value[:1] in (("seqiter",), ("itercount",))) for r in got):
                 out = []
                 for r in got:
-                    if r.kind == "exc":
-                        out.append(r)
+                    if r.kind == "exc" or (isinstance(r.value, tuple) and r.value[:1] in (("seqiter",), ("itercount",))):
+                        out.append(r)   # (an iterator is its own iterator)
                         continue
-                    n = r.state.get("ev.heap", 0)
-                    out.append(val(("h", n), r.state.set("ev.heap", n + 1).set(heap_key(("h", n)), ("iter", ("tuple",) + tuple(interp._exact_elements(r.value))))))
+                    n = r.state.get("ev.iters", 0)
+                    out.append(val(("seqiter", n), r.state.set("ev.iters", n + 1).set(f"it.{n}", ("tuple",) + tuple(interp._exact_elements(r.value)))))
                 return out
-        if d == "next" and 1 <= len(call.args) <= 2 and not call.keywords and isinstance(call.args[0], (ast.Name, ast.Attribute)):
-            got = interp.eval(call.args[0], st, fr, share=True)
-            if got and all(r.kind == "exc" or (is_handle(r.value) and isinstance(r.state.get(heap_key(r.value), None), tuple) and r.state.get(heap_key(r.value))[:1] == ("iter",)) for r in got):
+        if d in ("itertools.count", "count") and len(call.args) <= 1 and not call.keywords and not st.has(fr.local("count")):
+            out = []
+            for r in interp.eval_list(list(call.args), st, fr):
+                start = r.value[0] if r.kind == "val" and r.value else ("const", 0)
+                if r.kind == "exc" or not (isinstance(start, tuple) and start[:1] == ("const",) and isinstance(start[1], int)):
+                    out.append(r if r.kind == "exc" else val(TOP, r.state))
+                    continue
+                n = r.state.get("ev.iters", 0)
+                out.append(val(("itercount", n), r.state.set("ev.iters", n + 1).set(f"it.{n}", start)))
+            return out
+        if d == "next" and 1 <= len(call.args) <= 2 and not call.keywords:
+            got = interp.eval(call.args[0], st, fr)
+            if got and all(r.kind == "exc" or (isinstance(r.value, tuple) and r.value[:1] in (("seqiter",), ("itercount",))) for r in got):
                 out = []
                 for r in got:
                     if r.kind == "exc":
                         out.append(r)
                         continue
-                    hk = heap_key(r.value)
-                    rest = r.state.get(hk)[1]
-                    if len(rest) > 1:
-                        out.append(val(rest[1], r.state.set(hk, ("iter", ("tuple",) + tuple(rest[2:])))))
-                    elif len(call.args) == 2:
-                        out.extend(interp.eval(call.args[1], r.state, fr))
-                    else:
-                        out.append(exc(("exc", "StopIteration"), r.state))
+                    for kind_, el, rest, s1 in self._pull(interp, r.value, r.state, fr):
+                        if kind_ == "item":
+                            out.append(val(el, s1))
+                        elif kind_ == "exc":
+                            out.append(exc(el, s1))
+                        elif kind_ == "end" and len(call.args) == 2:
+                            out.extend(interp.eval(call.args[1], s1, fr))
+                        elif kind_ == "end":
+                            out.append(exc(("exc", "StopIteration"), s1))
+                        else:
+                            out.append(val(TOP, s1))
                 return out
         if d == "iter" and len(call.args) == 2 and not call.keywords:
             return [r if r.kind == "exc" else val(("calliter", r.value[0], r.value[1]), r.state) for r in interp.eval_list(list(call.args), st, fr)]
@@ -1373,7 +1421,7 @@ class ObjectDomain(EffectDomain):
             ch = attr_chain(f_)
             if fr.instance is None and ch and len(ch) == 2 and fr.selfname and ch[0] == fr.selfname and st.has(fr.self_key + "." + ch[1]):
                 held = st.get(fr.self_key + "." + ch[1])
-                if (isinstance(held, tuple) and held[:1] and held[0] in CALLABLE_TAGS and not (held[0] == "func" and len(held) == 2 and False)) or is_inst(held):
+                if (isinstance(held, tuple) and held[:1] and held[0] in CALLABLE_TAGS + ("wobj",)) or is_inst(held):
                     out = []
                     for bad, pos, kw, s2 in self._call_args(interp, call, st, fr):
                         if bad is not None:
@@ -1404,7 +1452,7 @@ class ObjectDomain(EffectDomain):
             if isinstance(f_, (ast.Call, ast.Subscript)) or (isinstance(f_, ast.Attribute) and not attr_chain(f_) and not (dotted(f_) or "").startswith("super()")
                                                              and not any(isinstance(n_, ast.Call) for n_ in ast.walk(f_.value))):
                 vals = interp.eval(f_, st, fr)
-                if vals and all(r.kind == "exc" or (isinstance(r.value, tuple) and r.value[:1] and (r.value[0] in CALLABLE_TAGS or is_inst(r.value))) for r in vals):
+                if vals and all(r.kind == "exc" or (isinstance(r.value, tuple) and r.value[:1] and (r.value[0] in CALLABLE_TAGS + ("wobj",) or is_inst(r.value))) for r in vals):
                     out = []
                     for r in vals:
                         if r.kind == "exc":
@@ -1429,7 +1477,7 @@ class ObjectDomain(EffectDomain):
         return [(interp._exact_elements(value), st)]
 
     def pullable(self, v):
-        return isinstance(v, tuple) and v[:1] in (("calliter",), ("repeat",)) or (isinstance(v, tuple) and v[:1] == ("lazymap",) and len(v) == 3 and self.pullable(v[2]))
+        return isinstance(v, tuple) and v[:1] in (("calliter",), ("repeat",), ("seqiter",), ("itercount",)) or (isinstance(v, tuple) and v[:1] == ("lazymap",) and len(v) == 3 and self.pullable(v[2]))
 
     def pull(self, interp, seq, st, fr):
         return self._pull(interp, seq, st, fr)
@@ -1467,6 +1515,18 @@ class ObjectDomain(EffectDomain):
             return [("item", seq[1], ("tuple",) + tuple(seq[2:]), st)]
         if isinstance(seq, tuple) and seq[:1] == ("repeat",) and len(seq) == 2:
             return [("item", seq[1], seq, st)]
+        if isinstance(seq, tuple) and seq[:1] == ("seqiter",) and len(seq) == 2:
+            rest = st.get(f"it.{seq[1]}", None)
+            if not (isinstance(rest, tuple) and rest[:1] == ("tuple",)):
+                return [("unknown", None, None, st)]
+            if len(rest) == 1:
+                return [("end", None, None, st)]
+            return [("item", rest[1], seq, st.set(f"it.{seq[1]}", ("tuple",) + tuple(rest[2:])))]
+        if isinstance(seq, tuple) and seq[:1] == ("itercount",) and len(seq) == 2:
+            cur = st.get(f"it.{seq[1]}", None)
+            if not (isinstance(cur, tuple) and cur[:1] == ("const",) and isinstance(cur[1], int)):
+                return [("unknown", None, None, st)]
+            return [("item", cur, seq, st.set(f"it.{seq[1]}", ("const", cur[1] + 1)))]
         if isinstance(seq, tuple) and seq[:1] == ("calliter",) and len(seq) == 3:
             # iter(f, sentinel): f() until it returns the sentinel
             out = []
